@@ -465,6 +465,66 @@ func c08(x *mon.Ctx) {
 		x.Require("exact/"+n, 6, 8, 20)
 	}
 	x.Require("xfam-bit", 12, 100, 128)
+	// ---- ONE options value, never re-assigned, used for a sequence of different quotes: each verdict must be the verdict under
+	//      an untouched copy (an options value with "do not care" entries must not learn from the quotes it sees)
+	for h := 0; h < x.Pick(40, 2000); h++ {
+		r := x.Rand(fmt.Sprint("one-options", h))
+		var qs [][]byte
+		base := policyQuote(r)
+		for k := 0; k < 5; k++ {
+			q := base.Clone()
+			switch k {
+			case 1:
+				r.Read(q.Body[328+48 : 328+96]) // RTMR1
+			case 2:
+				r.Read(q.Body[232:280]) // MR_OWNER
+			case 3:
+				r.Read(q.Body[136:184]) // MR_TD
+			case 4:
+				r.Read(q.Body[328+144 : 328+192]) // RTMR3
+			}
+			qs = append(qs, q.Bytes())
+		}
+		q0, _ := ref.ParseQuote(qs[0])
+		var pol ref.Policy
+		switch h % 5 {
+		case 0:
+			pol.Rtmrs = [][]byte{q0.Rtmrs[0], {}, q0.Rtmrs[2], nil}
+		case 1:
+			pol.Rtmrs = [][]byte{{}, {}, {}, {}}
+			pol.MrOwner = []byte{}
+		case 2:
+			pol.AnyMrTd = [][]byte{{}, q0.MrTd}
+		case 3:
+			pol.AnyMrTd = [][]byte{q0.MrOwner, q0.MrTd}
+			pol.Rtmrs = [][]byte{nil, q0.Rtmrs[1], nil, q0.Rtmrs[3]}
+		case 4:
+			pol.MrTd, pol.MrOwner, pol.Rtmrs = q0.MrTd, nil, [][]byte{q0.Rtmrs[0], q0.Rtmrs[1], {}, {}}
+		}
+		one := deepCopyOptions(toOptions(&pol))
+		order := r.Perm(5)
+		order = append(order, order...)
+		var hist []string
+		for _, k := range order {
+			rq, _ := ref.ParseQuote(qs[k])
+			m := mon.BuildMessage(rq)
+			fresh := deepCopyOptions(toOptions(&pol))
+			var e1, e2 error
+			pv, st := mon.Guard(func() { e1 = validate.TdxQuote(m, one); e2 = validate.TdxQuote(m, fresh) })
+			hist = append(hist, fmt.Sprintf("q%d:%v", k, e1 == nil))
+			param := fmt.Sprintf("history%d/policy%d/%v", h, h%5, hist)
+			if pv != "" {
+				x.Violation("one-options-many-quotes", param, "panic: "+pv+"\n"+st, "none", param)
+				break
+			}
+			if (e1 == nil) != (e2 == nil) {
+				x.Violation("one-options-many-quotes", param, fmt.Sprintf("the options value that validated the earlier quotes of this history judges quote %d accepted=%v (%v); an untouched options value of the same content judges it accepted=%v (%v)", k, e1 == nil, e1, e2 == nil, e2), "none", param)
+				break
+			}
+			x.Note("one-options-many-quotes", param, e1 == nil, false, true)
+		}
+	}
+	x.Require("one-options-many-quotes", 40, 40, 400)
 	x.Require("td-attributes-bit", 4, 100, 128)
 	x.Require("min-qe-svn", 15, 8, 25)
 	x.Require("min-pce-svn", 15, 8, 25)
